@@ -132,7 +132,8 @@ def _run(cmd, log, timeout, mem_gb=None, cwd=None):
     return rc
 
 
-RES_RE = re.compile(r'^\[([^\]\n]+)\] (?:line (\d+) )?(.*?): (SUCCESS|FAILURE|UNKNOWN|ERROR)$', re.M | re.S)
+# property ids end in .<class>.<number>; function names may themselves contain ']' (slices)
+RES_RE = re.compile(r'^\[(.+?(?:\.\d+|\.recursion))\] (?:line (\d+) )?(.*?): (SUCCESS|FAILURE|UNKNOWN|ERROR)$', re.M | re.S)
 
 
 def parse_cbmc(text):
@@ -168,7 +169,7 @@ def parse_cbmc(text):
         name, line, desc, status = m.groups()
         desc = re.sub(r'^\[KANI_CHECK_ID_[^\]]*\] ', '', desc)
         parts = name.rsplit('.', 2)
-        cls = parts[1] if len(parts) == 3 else ''
+        cls = parts[1] if len(parts) == 3 else (parts[0] if len(parts) == 2 and parts[1].isdigit() else (parts[-1] if parts[-1] == 'recursion' else ''))
         out['props'].append({'name': name, 'class': cls, 'line': int(line) if line else None,
                              'file': files[idx] if idx < len(files) else None,
                              'desc': desc.strip(), 'status': status})
@@ -189,6 +190,12 @@ def parse_cbmc(text):
     if m:
         st['symex_s'] = round(float(m.group(1)), 3)
     st['solver_s'] = round(sum(float(x) for x in re.findall(r'Runtime decision procedure: ([\d.e+-]+)s', text)), 3)
+    # cross-check: every result line CBMC printed must have been parsed
+    out['raw_failures'] = len(re.findall(r': FAILURE$', body, re.M))
+    out['parsed_failures'] = len([p for p in out['props'] if p['status'] == 'FAILURE'])
+    m = re.search(r'^\*\* (\d+) of (\d+) failed', text, re.M)
+    out['cbmc_failed'] = int(m.group(1)) if m else None
+    out['cbmc_total'] = int(m.group(2)) if m else None
     if 'VERIFICATION SUCCESSFUL' in text:
         out['verdict'] = 'SUCCESSFUL'
     elif 'VERIFICATION FAILED' in text:
@@ -202,6 +209,9 @@ def classify(parsed):
     """Kani's reading of CBMC's per-property results.
     returns (status, failures, covers) status in ok|failed|unwind|unsupported|vacuous|error"""
     if parsed['verdict'] is None:
+        return 'error', [], []
+    if parsed.get('cbmc_failed') is not None and (parsed['cbmc_failed'] != parsed['parsed_failures'] or parsed['cbmc_total'] != len(parsed['props'])):
+        # the driver did not understand CBMC's output: never report success on that basis
         return 'error', [], []
     fails, covers, unwind, unsupported = [], [], [], []
     for p in parsed['props']:
